@@ -5,6 +5,7 @@ import Zed.Proofs.ZsonQuote
 import Zed.Proofs.ZsonRoundtrip3
 import Zed.Proofs.ZsonJson
 import Zed.Proofs.ZsonNamedTop
+import Zed.Proofs.ZsonStream
 /-!
   C02 — ZSON text round trip is the identity; JSON is a subset.
 
@@ -254,6 +255,46 @@ example :
       v.isNull = false ∧ bareEmpty v = false ∧ noOwnDeco u v = true ∧ enumSyms u = none ∧
       ({} : FState).hasName (.named [112, 111, 114, 116] u) = false ∧
       rtOK (.named [112, 111, 114, 116] u) (.named v) = true := by decide
+
+/-- a *later* occurrence of a named type `n = u` the formatter already knows (and the analyzer
+    has bound alike): it is written `value (n)` with no decorator inside (`known = true`) and
+    reads back as itself; neither table changes.  Guards: `u` plain, not an enum, without
+    union-typed container elements (`known-name-union-elements-undecorated`). -/
+theorem zson_roundtrip_value_named_later_partial (fst : FState) (a0 : AState) (n : Name) (u : Ty) (v : Val)
+    (hp : plainTy u = true) (hw : wfTy u = true) (hk : noUnionElems u = true) (hen : enumSyms u = none)
+    (hv : wfVal u v = true) (hnn : v.isNull = false)
+    (hname : fst.nameOf (.named n u) = some n) (hhas : fst.hasName (.named n u) = true)
+    (ha : alookup n a0.names = some (.named n u)) :
+    (fmtTop fst (.named n u) (.named v)).1 = fst ∧
+    analyzeTop a0 (fmtTop fst (.named n u) (.named v)).2 = .ok (a0, (.named n u, .named v)) :=
+  named_later fst a0 n u v hp hw hk hen hv hnn hname hhas ha
+
+/-- **streams**: a sequence of values — plain values and values of named types over plain types,
+    one name bound to one type over the whole stream — written by one formatter and read by one
+    analyzer comes back value by value, for the per-value typedef scope (`FormatRecord`,
+    `reset = true`) and the per-stream scope (`Format`, `reset = false`), with or without a
+    `persist` table and for every `persist` predicate.  Proved by induction over the stream with
+    the coupling invariant `Coupled`: whatever name the formatter has bound (in the current scope
+    or permanently) the analyzer's table binds to the same type; first occurrences extend both
+    tables alike (`…named_top_partial`), later occurrences are written by bare name and leave
+    both unchanged (`…named_later_partial`), a scope reset only forgets formatter bindings. -/
+theorem zson_roundtrip_stream_partial (reset perm : Bool) (persist : Name → Bool) (items : List (Ty × Val))
+    (hok : ∀ x ∈ items, itemOK x = true) (hcons : namesConsistent items = true) (a0 : AState) :
+    analyzeStream a0
+      (fmtStream reset { typedefs := [], permanent := if perm then some [] else none, persist := persist } items) =
+      .ok items :=
+  stream_roundtrip reset items hcons items (fun _ h => h) hok _ a0 (coupled_init items persist perm a0)
+
+-- non-vacuity, and the theorem's conclusion re-computed on a stream with a repeated name
+example :
+    let x : Ty := .named [120] (.record (.cons [97] (.prim 8) (.cons [98] (.array (.prim 25)) .nil)))
+    let v1 : Val := .named (.record (.cons (.prim [49]) (.cons (.array (.cons (.prim [107]) .nil)) .nil)))
+    let v2 : Val := .named (.record (.cons .null (.cons (.array .nil) .nil)))
+    let items : List (Ty × Val) := [(x, v1), (.array (.prim 8), .array (.cons (.prim [51]) .nil)), (x, v2)]
+    (∀ y ∈ items, itemOK y = true) ∧ namesConsistent items = true ∧
+      analyzeStream {} (fmtStream false {} items) = .ok items ∧
+      analyzeStream {} (fmtStream true { permanent := some [], persist := fun _ => true } items) = .ok items := by
+  decide
 
 /-- an empty container as a whole value is written `[]` with no decorator and read back as an
     empty array of nulls (`formatValueAndDecorate` passes `null = false` to `decorate`). -/
